@@ -258,7 +258,19 @@ theorem DInv.addRawTx {n : Node} {G : Ghost} (r : RInv n G) (h : DInv n G) (ts :
       · rw [if_neg h2, if_neg h2]
         split <;> exact h
     · rw [if_neg h1, if_neg h1]
-      exact h.addTxs r ts hash0 idx (some txid) evs _
+      have ha := h.addTxs r ts hash0 idx (some txid) evs
+        (some (1 + (drainPlan n sender n.nextHeight FUTURE_NONCES (n.accountNonce sender + 1)).1))
+      unfold gAddTxs at ha
+      by_cases hok : (drainCheck n sender (n.accountNonce sender + 1)
+          (drainPlan n sender n.nextHeight FUTURE_NONCES (n.accountNonce sender + 1)).2
+          (n.addTxs ts hash0 idx (some txid) evs
+            (some (1 + (drainPlan n sender n.nextHeight FUTURE_NONCES (n.accountNonce sender + 1)).1)))).2 = .ok
+      · obtain ⟨h1', h2', _⟩ := drainCheck_ok hok
+        rw [if_pos hok, h2']
+        rw [if_pos h1'] at ha
+        exact ha
+      · rw [if_neg hok, drainCheck_fst_of_ne_ok addTxs_fst_of_ne_ok hok]
+        exact h
 
 theorem DInv.initialise {n : Node} {G : Ghost} (r : RInv n G) (h : DInv n G) (hash0 : String) (ts height : Nat)
     (evs : List Ev) : DInv (n.initialise hash0 ts height evs).1 (gInitialise n G hash0 ts height evs) := by
@@ -536,6 +548,9 @@ engine commit issues 21 writes: 9 block rows (3 tables x blocks 1, 2 + flush), t
 
 namespace ReachCrashExample
 open Node Node.Example
+
+-- the parked row of `Node.Example` is a 162-character string that `decide` has to walk through
+set_option maxRecDepth 8192
 
 def opsC : List Op := ops.take 1 ++ [.commit] ++ (ops.drop 1).take 4
 
